@@ -1,0 +1,24 @@
+// +build verif
+
+package engine
+
+// Mem engine variants selectable through VerifSetMemType. Production code
+// always runs with the package default (radix); the other two variants are
+// only reachable by assigning the unexported package variable, which is what
+// the unit tests of this package do.
+const (
+	VerifMemSkiplist = int(memTypeSkiplist)
+	VerifMemRadix    = int(memTypeRadix)
+	VerifMemBtree    = int(memTypeBtree)
+)
+
+// VerifSetMemType selects the data structure used by every memEng call made
+// afterwards and returns the previous selection. The variable is process
+// global and read on every call, so a single-threaded caller can drive
+// several mem engines of different variants by switching before each call.
+// Only compiled with the verif build tag.
+func VerifSetMemType(t int) int {
+	old := int(useMemType)
+	useMemType = memType(t)
+	return old
+}
